@@ -350,6 +350,7 @@ impl Sink {
             let mut kept = Vec::new();
             for f in fails {
                 match f.prop {
+                    "C06" if f.msg.contains("aborted by a panic") => { kept.push(monitors::Fail { prop: "C06", msg: f.msg.clone() }); kept.push(monitors::Fail { prop: "C16", msg: f.msg }); }
                     "C06" | "C07" | "C16" => kept.push(monitors::Fail { prop: "C16", msg: f.msg }),
                     "C05" if f.msg.contains("cut short by a panic") => kept.push(f),
                     "C02" if f.msg.contains("recorded sizes") => {
@@ -364,7 +365,6 @@ impl Sink {
                         }
                         kept.push(monitors::Fail { prop: "C16", msg: f.msg });
                     }
-                    "C06" if f.msg.contains("aborted by a panic") => { kept.push(monitors::Fail { prop: "C06", msg: f.msg.clone() }); kept.push(monitors::Fail { prop: "C16", msg: f.msg }); }
                     _ => {}
                 }
             }
